@@ -3,6 +3,7 @@ documentation specifies (results, in-place/aliasing effects, panics); xrand: str
 import json
 import os
 import re
+import shutil
 import sys
 
 import vlib
@@ -18,8 +19,24 @@ def config_switches():
     return dict((m.group(1), m.group(2) == "true") for m in re.finditer(r"^Definition (\w+) : bool := (true|false)\.", txt, flags=re.M))
 
 
+def sync_optional_sources():
+    """harness_pure/optional/xrand_trace.go.txt needs the verif hook xmath/xrand/xrand_verif_export.go in the
+    repository under test; it is part of the harness only when the hook is there."""
+    hook = os.path.exists(os.path.join(vlib.REPO, "xmath", "xrand", "xrand_verif_export.go"))
+    gen = os.path.join(vlib.ROOT, "harness_pure", "xrand_trace_gen.go")
+    if hook:
+        shutil.copyfile(os.path.join(vlib.ROOT, "harness_pure", "optional", "xrand_trace.go.txt"), gen)
+    elif os.path.exists(gen):
+        os.remove(gen)
+    SPECS["xrand"][0].trace_hook = hook
+    return hook
+
+
 def run(ctx):
     proofs_ok = ctx.check_proofs(PROP_FILES, extra_targets=["theories/Pure/Corr.vo"])
+    hook = sync_optional_sources()
+    ctx.coverage["xrand_oracle_trace_comparison"] = ("on (verif hook present): the model is evaluated on the recorded draws of each run and compared exactly"
+                                                    if hook else "off (hook xmath/xrand/xrand_verif_export.go not in the repository): structure only")
     ok, out, exe = vlib.build_runner(module="harness_pure", exe_name="runner-pure")
     if not ok:
         ctx.violation("harness-build", "the harness does not build against the current tree: " + out[-1500:], {"build_output": out[-4000:]}, failing_input=False)
@@ -48,6 +65,7 @@ def replay(ctx, path):
     if not case:
         print("replay: no runnable case recorded in", path)
         sys.exit(2)
+    sync_optional_sources()
     ok, out, exe = vlib.build_runner(module="harness_pure", exe_name="runner-pure")
     if not ok:
         print("replay: harness build failed:\n" + out[-2000:])
